@@ -70,7 +70,7 @@ def Prim.enum (vals : List String) : Prim String :=
 def Prim.enumDefault (vals : List String) (dflt : String) : Prim String :=
   ⟨id, fun s => if vals.contains s then some s else some dflt, fun s => if vals.contains s then s else dflt, fun _ => True⟩
 
-/-- a real written with `str()` (rectangle length / width / orientation, circle radius, gps …): the text is the repr -/
+/-- a real written with a bare `str()`: the text is the repr (no such site is left in the body after the decimal_to_str repair) -/
 def Prim.decRepr : Prim String := ⟨id, some, id, fun _ => True⟩
 
 /-! ## float_to_str (file_writer_xml.py:62-74) on decimal strings -/
@@ -95,6 +95,9 @@ def truncChars (d : Nat) (s : List Char) : List Char :=
 structure Params where
   d : Nat
   fix : List (String × String)
+  /-- for every repr in exponent notation what `np.format_float_positional(f, trim="0")` gives (the same value written
+      positionally; a function of the float, supplied by the harness) -/
+  pos : List (String × String)
 
 def lookupFix (s : String) : List (String × String) → Option String
   | [] => none
@@ -104,6 +107,14 @@ def lookupFix (s : String) : List (String × String) → Option String
 def floatToStr (P : Params) (s : String) : String :=
   if s.toList.contains 'e' then (lookupFix s P.fix).getD s
   else String.ofList (truncChars P.d s.toList)
+
+/-- `decimal_to_str(x)` (file_writer_xml.py:77-86) as a function of `str(x)`: the repr itself, unless it is in exponent
+    notation — then the positional form of the same value -/
+def decimalToStr (P : Params) (s : String) : String :=
+  if s.toList.contains 'e' || s.toList.contains 'E' then (lookupFix s P.pos).getD s else s
+
+/-- a real written with `decimal_to_str` (rectangle length / width / orientation, circle radius): all digits, no truncation -/
+def Prim.decPlain (P : Params) : Prim String := ⟨decimalToStr P, some, decimalToStr P, fun _ => True⟩
 
 /-- a real written with `float_to_str` and read with `float(text)` (the double nearest to the decimal text; the model keeps the text) -/
 def Prim.dec (P : Params) : Prim String := ⟨floatToStr P, some, floatToStr P, fun _ => True⟩
